@@ -6,7 +6,7 @@ ROOT = os.path.dirname(os.path.dirname(os.path.abspath(__file__)))
 CHECKS = {
  # id: (level, technique, level text, level note, design ref)
  "C01": ("exploration", "reference-model state monitor over 8 construction paths + all-pairs query oracle",
-         "Observed parent/child/ancestor sets of every term and child_of/parent_of for all ordered pairs are compared with a naive BFS closure of the supplied edges on thousands of generated DAGs per run (every shape x id assignment in a fixed catalogue, then seeded random), through Builder, binary v1-v3, both text loaders, as_bytes round trip and sub_ontology. Held-on-observed-executions, not a proof; bounded to <=400 terms.",
+         "Observed parent/child/ancestor sets of every term and child_of/parent_of for all ordered pairs are compared with a naive BFS closure of the supplied edges on thousands of generated DAGs per run (every shape x id assignment in a fixed catalogue, then seeded random), through Builder, binary v1-v3, both text loaders, as_bytes round trip and sub_ontology, plus the complete HPO shipped as tests/ontology.hpo (19 484 terms). Held-on-observed-executions, not a proof; generated graphs are bounded to <=400 terms.",
          "trusts the harness' BFS model (self-audited by transposition each case) and its independent binary encoder / text renderer", "DESIGN.md §5 C01"),
  "C02": ("exploration", "reference-model state monitor (descendants x direct facts) over 8 construction paths",
          "Per-term gene/OMIM/ORPHA id sets, record direct-term sets, resolution of every handed-out id and absence of leaks between kinds (overlapping numeric ids) are compared with the model on every generated ontology, under every supply order incl. ancestor-first / descendant-first annotation orders.",
@@ -33,7 +33,7 @@ CHECKS = {
          "Every record returned by gene/OMIM/ORPHA enrichment is logged as (kind,N,K,n,k,count,p,fold) and compared with an independent f64 recurrence in-process and with exact integer arithmetic offline; result sets, counts, fold change, [0,1] range and monotonicity in k are asserted; populations below/at/above the 170-entry factorial table and the complete (N,K,n,k) lattice for N<=12 (quick) / 24 (thorough) are covered.",
          "samples are duplicate-free subsets of the background; python3 standard library only", "DESIGN.md §5 C06"),
  "C10": ("exploration", "complete key-space sweep per generated ontology against the set of added ids; naive substring model for name search",
-         "For every generated term set Ontology::hpo is queried for all 10^7+1 ids plus sampled ids up to u32::MAX; iteration/len, record lookups by id for present/absent/cross-kind ids, gene_by_name and the OMIM name searches are compared with the facts.",
+         "For every generated term set (incl. two with more than 65 536 terms) Ontology::hpo is queried for all 10^7+1 ids plus sampled ids up to u32::MAX, on the Builder-made ontology and again on its binary round trip and on the same terms loaded from hp.obo; iteration/len, record lookups by id for present/absent/cross-kind ids, gene_by_name and the OMIM name searches are compared with the facts.",
          "exhaustive in the key dimension per ontology, ontologies sampled; ids >= 10^7 may be refused by a panic at insertion (outside the statement)", "DESIGN.md §5 C10"),
  "C20": ("exploration", "exhaustive id-space enumeration + totality monitor (catch_unwind) with a grammar oracle over enumerated and seeded strings",
          "Every id 0..10^7 and the u32 borders are rendered, parsed back and converted through bytes in every run (exhaustive for that half); try_from(&str) is driven with all 66430 strings of <=5 symbols over a 9-symbol alphabet incl. 2/3/4-byte characters, numeric borders and seeded longer strings under a panic monitor.",
@@ -60,8 +60,8 @@ CHECKS = {
          "Random call histories over all typestates interleave failing and succeeding calls with absent ids adjacent to present ones; each call's Ok/Err is checked against presence of the referenced terms and the built ontology is walked under catch_unwind and compared with the model of the successful calls alone; every handed-out id must resolve.",
          "successful add_parent calls are acyclic", "DESIGN.md §5 C15"),
  "C17": ("exploration", "callback event log + dendrogram replay on a naive agglomerative model",
-         "For all four linkage methods the distance callback's invocations are logged and the returned clusters are checked structurally (binary tree over the inputs, index discipline, sizes, leaf order) and replayed step by step against a naive model (closest pair, reported distance, update rule); ties stop exact comparison only.",
-         "seeded symmetric tie-free distance; input sets pairwise distinct", "DESIGN.md §5 C17"),
+         "For all four linkage methods the distance callback's invocations are logged and the returned clusters are checked structurally (binary tree over the inputs, index discipline, sizes, leaf order) and replayed step by step against a naive model (closest pair, reported distance, update rule; for union every later callback invocation must mention exactly the united set); distances come in four ranges incl. negative ones, inputs include an empty set, identical sets and sets holding a term with its ancestor; ties stop exact comparison only.",
+         "seeded symmetric distance; exact replay stops at the first tie (within 1e-6 relative)", "DESIGN.md §5 C17"),
  "C18": ("exploration", "model diff of two FactSets vs all Comparison / delta accessors, single-edit catalogue + mirror/self/round-trip metamorphic checks",
          "Pairs of ontologies that differ by exactly one edit of each of 12 kinds (every run) and by random edit bundles are compared; all twelve accessors and both delta types are checked against a model diff, the mirrored comparison against the mirrored model, self and round-trip comparisons must be empty.",
          "replacement ids resolve in both ontologies", "DESIGN.md §5 C18"),
